@@ -21,7 +21,7 @@ from ..selftest import Mutant
 from . import kinds_driver
 
 PROP = "C01"
-TECHNIQUE = "static analysis: rank-domain abstract interpretation (EXT/INT/FULL index spaces) over the map kernel + CFG must-pass of array materialisation + iteration-source and sibling-decision analysis"
+TECHNIQUE = "static analysis: rank-domain abstract interpretation (EXT/INT/FULL index spaces) over the map kernel + CFG must-pass of array materialisation + iteration-source and sibling-decision analysis + caller-supplied-entries-win rule on the internal-shape merge (store key = guard key)"
 RUN = "pipefunc.map._run"
 EXPLANATION = (
     "Static analysis of the map kernel: a purpose-built rank-domain type system (external / internal / full index "
@@ -287,6 +287,11 @@ def check(ctx: Ctx) -> None:
 
 R, M, S, B = "pipefunc/map/_run.py", "pipefunc/_pipeline/_mapspec.py", "pipefunc/map/_shapes.py", "pipefunc/map/_storage_array/_base.py"
 MUTANTS = [
+    Mutant("caller-shapes-guard-on-whole-output-name-F41", "pipefunc/map/_run_info.py",
+           "        if f.internal_shape is None:\n            continue\n        for output_name in at_least_tuple(f.output_name):\n            if output_name in internal_shapes:  # provided by the caller, which takes precedence\n                continue\n            internal_shapes[output_name] = f.internal_shape\n",
+           "        if f.output_name in internal_shapes:\n            continue\n        if f.internal_shape is None:\n            continue\n        for output_name in at_least_tuple(f.output_name):\n            internal_shapes[output_name] = f.internal_shape\n",
+           ("C01.3-whole-arrays",), why="original F41"),
+    Mutant("declared-shape-overrides-caller", "pipefunc/map/_run_info.py", "            if output_name in internal_shapes:  # provided by the caller, which takes precedence\n                continue\n", "", ("C01.3-whole-arrays",), why="round-4 seed C01/11"),
     Mutant("defaults-override-inputs-in-shapes", S, "    inputs_with_defaults = pipeline.defaults | inputs\n", "    inputs_with_defaults = inputs | pipeline.defaults\n", ("C01.3-whole-arrays",), why="round-2 seed C01/4"),
     Mutant("select-kwargs-full-shape", R, "    input_keys = func.mapspec.input_keys(external_shape, index)\n", "    input_keys = func.mapspec.input_keys(shape, index)\n", ("C01.1-rank-domain",)),
     Mutant("set-output-internal-for-external", R, "    external_shape = external_shape_from_mask(shape, shape_mask)\n    internal_shape = internal_shape_from_mask(shape, shape_mask)\n    external_index", "    external_shape = internal_shape_from_mask(shape, shape_mask)\n    internal_shape = internal_shape_from_mask(shape, shape_mask)\n    external_index", ("C01.1-rank-domain",)),
